@@ -78,12 +78,16 @@ func c17Start(c *Ctx, maxv string, tag string) (*c17Proc, error) {
 	bin := filepath.Join(c.Dir, "out", "bin", "cql-proxy")
 	// the address space of the proxy process is capped so that an allocation storm ends in the process's own
 	// "fatal error: runtime: out of memory" (which the oracle sees) instead of the kernel's OOM killer picking a victim
+	verFlag := ""
+	if maxv == "v3" {
+		verFlag = " --protocol-version v3" // the default (v4) would be above the maximum: refused at start-up
+	}
 	fdLimit := ""
 	if strings.HasPrefix(tag, "fd") {
 		fdLimit = "ulimit -n " + strings.TrimPrefix(tag, "fd") + "; "
 	}
-	p.cmd = exec.Command("sh", "-c", fmt.Sprintf(fdLimit+"ulimit -v %d; exec %s --contact-points %s --port %d --bind %s --max-protocol-version %s --heartbeat-interval 300ms --idle-timeout 3s --connect-timeout 2s",
-		c17MemLimitKB, bin, cluster.ContactPoint(), cluster.Port, p.addr, maxv))
+	p.cmd = exec.Command("sh", "-c", fmt.Sprintf(fdLimit+"ulimit -v %d; exec %s --contact-points %s --port %d --bind %s --max-protocol-version %s%s --heartbeat-interval 300ms --idle-timeout 3s --connect-timeout 2s",
+		c17MemLimitKB, bin, cluster.ContactPoint(), cluster.Port, p.addr, maxv, verFlag))
 	p.cmd.Stdout = ef
 	p.cmd.Stderr = ef
 	p.cmd.Env = append(os.Environ(), "GOTRACEBACK=all")
@@ -844,7 +848,7 @@ func runC17(c *Ctx) {
 	r.Require("client_inputs_sent", "backend_hostilities", "backend_hostile_replies_sent", "control_overrides", "canary_rounds_ok", "repeated_failing_requests_sent")
 	maxvs := []string{"v4", "DSEv2"}
 	if !c.Quick() {
-		maxvs = []string{"v3", "v4", "v5", "DSEv1", "DSEv2"}
+		maxvs = []string{"v4", "v5", "DSEv1", "DSEv2"} // the harness clients of this check speak v4, so a v3 maximum is left to C13/C20
 	}
 	maxFrame := 16 << 20
 	corpusDir := filepath.Join(c.Dir, "out", "logs", "c17")
@@ -1184,7 +1188,7 @@ func runC17(c *Ctx) {
 							cluster.SystemOverride = ov
 							stderr := filepath.Join(corpusDir, fmt.Sprintf("proxy-startup-%s-%s-s%d.stderr", maxv, name, c.Shard))
 							ef, _ := os.Create(stderr)
-							cmd := exec.Command(filepath.Join(c.Dir, "out", "bin", "cql-proxy"), "--contact-points", cluster.ContactPoint(), "--port", fmt.Sprint(cluster.Port), "--bind", fmt.Sprintf("127.0.0.1:%d", freePort()), "--max-protocol-version", maxv, "--connect-timeout", "1s")
+							cmd := exec.Command(filepath.Join(c.Dir, "out", "bin", "cql-proxy"), "--contact-points", cluster.ContactPoint(), "--port", fmt.Sprint(cluster.Port), "--bind", fmt.Sprintf("127.0.0.1:%d", freePort()), "--max-protocol-version", maxv, "--protocol-version", map[bool]string{true: "v3", false: "v4"}[maxv == "v3"], "--connect-timeout", "1s")
 							cmd.Stdout, cmd.Stderr = ef, ef
 							cmd.Env = append(os.Environ(), "GOTRACEBACK=all")
 							if cmd.Start() == nil {
